@@ -242,6 +242,12 @@ func c18JudgeWakeup(v *c18V, log *c18Log, c c18Case) {
 					}
 				}
 			}
+			if newcomers != 0 && returns >= waiting {
+				// the unchanged code can lose the signal here (a Return racing a
+				// borrower that is between its refused TryBorrow and its wait, or
+				// a newcomer taking the slot): statement silent, tolerated
+				v.class("timeout-despite-return-at-racy-instant(tolerated)")
+			}
 			if newcomers == 0 {
 				v.class("wakeup-decidable-instant")
 				if returns >= waiting {
